@@ -168,9 +168,6 @@ func (ci *ChunkInfo) delDiscoverPresence(rootCid boson.Address) bool {
 // updateChunkInfo
 func (ci *ChunkInfo) updateChunkInfo(rootCid, overlay boson.Address, bv []byte) {
 	rc := rootCid.String()
-	if _, ok := ci.cd.presence[rc]; !ok {
-		ci.cd.presence[rc] = make(map[string]*discoverBitVector)
-	}
 	vb, ok := ci.cd.presence[rc][overlay.String()]
 	if !ok {
 		v, _ := ci.getChunkSize(context.Background(), rootCid)
@@ -186,6 +183,11 @@ func (ci *ChunkInfo) updateChunkInfo(rootCid, overlay boson.Address, bv []byte) 
 		vb = &discoverBitVector{
 			bit:  bit,
 			time: time.Now().Unix(),
+		}
+		// the entry of the file is only created together with a record, a
+		// message for an unknown (deleted) file must not leave an empty one
+		if _, ok := ci.cd.presence[rc]; !ok {
+			ci.cd.presence[rc] = make(map[string]*discoverBitVector)
 		}
 		ci.cd.presence[rc][overlay.String()] = vb
 	} else {
